@@ -288,6 +288,10 @@ bool PedersenCommitmentScheme::CheckGroup
 	mpz_init(foo);
 	try
 	{
+		// Check the sign of the order $q$.
+		if (mpz_sgn(q) <= 0)
+			throw false;
+
 		// Check whether $p$ and $q$ have appropriate sizes.
 		if ((mpz_sizeinbase(p, 2L) < F_size) || 
 			(mpz_sizeinbase(q, 2L) < G_size))
